@@ -14,6 +14,8 @@ ghost("bad", "int")            # number of "something went wrong" events so far 
 ghost("nhooks", "int")         # hook invocations so far (C12)
 ghost("hook_name", "array")
 ghost("hook_arg", "array")
+ghost("hook_out", "array")     # sys.stdout while the k-th hook ran (C18: nothing a step hook writes reaches the real stream)
+ghost("hook_err", "array")
 ghost("ncalls", "int")         # step-function invocations so far (C02)
 ghost("calls", "array")        # the Match objects run, in order
 ghost("nev", "int")            # formatter events so far, broadcast to every formatter (C15)
@@ -110,8 +112,9 @@ trusted_note("abs:Context._pop", "Context scope operations abstracted to a depth
 
 # ---------------------------------------------------------------------------------------
 # user hooks
-contract("user:hook", trusted=True, pos_params=["context"], vararg="args",
-         modifies=["G_nhooks", "G_hook_name", "G_hook_arg", "G_bad"],
+contract("user:hook", trusted=True, pos_params=["context"], vararg="args", globals={"sys": ("singleton", "SysModule")},
+         modifies=["G_nhooks", "G_hook_name", "G_hook_arg", "G_hook_out", "G_hook_err", "G_bad"],
+         ghost_stores=[("hook_out", "G_nhooks", "sys.stdout"), ("hook_err", "G_nhooks", "sys.stderr")],
          raises=[Raises("Exception", when="hook_raises(G_nhooks)",
                         ensures={"logged": "G_nhooks == old(G_nhooks) + 1 and G_bad == old(G_bad) + 1"})],
          ensures={"logged": "G_nhooks == old(G_nhooks) + 1 and G_bad == old(G_bad)"},
@@ -120,7 +123,7 @@ trusted_note("user:hook", "A-hook: hooks raise only Exception subclasses and tou
 
 contract(R + "ModelRunner.run_hook", props=["C12", "C01"],
          params={"self": "ref:ModelRunner", "name": "str", "context": "ref:Context", "args": "tuple:any"},
-         self_classes=["ModelRunner"],
+         self_classes=["ModelRunner"], globals={"sys": ("singleton", "SysModule")},
          requires={"context-is-the-runners": "self.context is context",
                    "element-and-tag-hooks-get-their-argument": "implies(str_in('tag', name) or not str_in('all', name), len(args) >= 1)",
                    "element-hooks-get-a-model-element":
@@ -130,7 +133,7 @@ contract(R + "ModelRunner.run_hook", props=["C12", "C01"],
                        "(is_none(G_ctx_feature) or typeof_is(G_ctx_feature, 'Feature')) and (G_ctx_rule is ABSENT or typeof_is(G_ctx_rule, 'Rule'))"},
          callsites={"self.hooks[name]": "user:hook"},
          with_items={"context.use_with_user_mode()": ("ctx:user_mode.enter", "ctx:user_mode.exit")},
-         modifies=["G_nhooks", "G_hook_name", "G_hook_arg", "G_bad", "G_ctx_aborted", "self.hook_failures",
+         modifies=["G_nhooks", "G_hook_name", "G_hook_arg", "G_hook_out", "G_hook_err", "G_bad", "G_ctx_aborted", "self.hook_failures",
                    "*.hook_failed", "*.error_message", "*.exception", "*.exc_traceback"],
          ensures={
              "no-hook-in-dry-run-or-when-undefined":
@@ -139,6 +142,11 @@ contract(R + "ModelRunner.run_hook", props=["C12", "C01"],
                  "and G_ctx_aborted == old(G_ctx_aborted) and unchanged('hook_failed') and unchanged('error_message') and unchanged('exception') and unchanged('exc_traceback'))",
              "hook-called-once":
                  "implies(not self.config.dry_run and has_key(self.hooks, name), G_nhooks == old(G_nhooks) + 1)",
+             "the-hook-sees-the-streams-in-force-at-the-call":
+                 "implies(not self.config.dry_run and has_key(self.hooks, name), G_hook_out(old(G_nhooks)) is old(sys.stdout) "
+                 "and G_hook_err(old(G_nhooks)) is old(sys.stderr))",
+             "earlier-hook-log-kept":
+                 "forall(lambda k: implies(k < old(G_nhooks), G_hook_out(k) == old(G_hook_out(k)) and G_hook_err(k) == old(G_hook_err(k))))",
              "passing-hook-changes-nothing":
                  "implies(not self.config.dry_run and has_key(self.hooks, name) and not hook_raises(old(G_nhooks)), "
                  "G_bad == old(G_bad) and self.hook_failures == old(self.hook_failures) and G_ctx_aborted == old(G_ctx_aborted) and unchanged('hook_failed') and unchanged('error_message') and unchanged('exception') and unchanged('exc_traceback'))",
